@@ -247,7 +247,7 @@ func mkMsg(mid, subject, body string) *Message {
 	return m
 }
 
-var c01MIDs = [...]string{"AAAAAAAAAAA1", "BBBBBBBBBBB2", "CCCCCCCCCCC3", "DDDDDDDDDDD4", "EEEEEEEEEEE5", "FFFFFFFFFFF6",
+var c01MIDs = [...]string{"AAAAAAAAAAA1", "bBbBbBbBbBb2", "CCCCCCCCCCC3", "DDDDDDDDDDD4", "eeeeeeeeeee5", "FFFFFFFFFFF6",
 	"GGGGGGGGGGG7", "HHHHHHHHHHH8", "IIIIIIIIIII9", "JJJJJJJJJJ10", "KKKKKKKKKK11", "LLLLLLLLLL12"}
 
 func c01Msgs(n int) []*Message {
